@@ -180,7 +180,8 @@ func raceUpstreamPhase(r *rng, n int) {
 	ups := []config.UpstreamConfig{{Name: "u1", AcceptEncoding: "gzip", Servers: []config.UpstreamServerConfig{{Addr: origin.URL}}}}
 	locs := []config.LocationConfig{
 		{Name: "l0", Upstream: "u1", RespHeaders: []string{"X-Loc:l0"}},
-		{Name: "l1", Upstream: "u1", Prefixes: []string{"/k"}, RespHeaders: []string{"X-Loc:l1"}},
+		// a rewrite rule that maps every path onto itself: the rewriter runs for every request and changes nothing
+		{Name: "l1", Upstream: "u1", Prefixes: []string{"/k"}, RespHeaders: []string{"X-Loc:l1"}, Rewrites: []string{"/k/*:/k/$1"}},
 		{Name: "l2", Upstream: "u1", Prefixes: []string{"/never"}, RespHeaders: []string{"X-Loc:l2"}},
 	}
 	cache.ResetDispatchers(nil)
@@ -223,7 +224,11 @@ func raceUpstreamPhase(r *rng, n int) {
 				return
 			default:
 			}
-			upstream.Reset(ups)
+			// every re-applied upstream list builds a new transport (and leaves the old one's idle connections to time
+			// out): bounded, so that a long run does not use up the machine's sockets
+			if i < 300 {
+				upstream.Reset(ups)
+			}
 			if !healthy() {
 				atomic.AddInt64(&unhealthy, 1)
 				waitUpstreamHealthy("u1")
